@@ -3,7 +3,7 @@ SPEC = {
     "id": "C15",
     "coq_targets": ["theories/Text/Props.vo", "theories/Text/Cases.vo", "theories/Text/Findings.vo"],
     "props": "theories/Text/Props.v",
-    "harness": [{"bin": "h_text", "n": {"quick": 800, "thorough": 16000},
+    "harness": [{"bin": "h_text", "n": {"quick": 800, "thorough": 8000},
                  "known_bits": {16: "C15-svc-unnamed"}}],
     "rule": "one FromStr call of one of the 15 sciparse identifier/address types, or one call of the scion-stack TXT record parser, per case: values (boundary + random) through the real Display then the real FromStr; grammar-derived strings with the alternative spellings; single/double-edit mutations (ASCII punctuation, whitespace, multi-byte UTF-8); every string of length 0..3 over the alphabet '[ ] : , - 0 1 f x' and space; bracket mismatches; numeric overflow tokens; forms of one type fed to another; directed probe inputs; TXT records: canonical records of random address lists, whitespace/spelling variants (ASCII and Unicode whitespace), mutations, prefix variants, separators/brackets dropped or doubled, all payloads of length 0..3 over '[ ] , 1 - . : x' and space. Non-trivial = non-empty input; distinct by (type, input)",
     "assumptions": ["Ipv4Addr/Ipv6Addr FromStr and Display are std-library code: not modelled; oracle tables in the correspondence check, round-trip + alphabet hypotheses (satisfiable, instance given) in the theorems",
